@@ -602,6 +602,49 @@ func bigBufferBody(c *mc.Ctx, item int) mc.Verdict {
 	return mc.Pass("filled", true)
 }
 
+// giantBufferBody: a caller's buffer may be larger than anything a 32-bit
+// quantity holds (only address space is needed for it: the pages are never
+// touched).  What a Read asks of the underlying reader is bounded by what is
+// left of the segment, whatever the size of the buffer.
+var giantBufs = []int64{1<<32 - 1, 1 << 32, 1<<32 + 7, 1 << 33, 1<<33 + 2}
+
+func giantBufferBody(c *mc.Ctx, item int) mc.Verdict {
+	size := giantBufs[item%len(giantBufs)]
+	first := item / len(giantBufs) // 0: the giant buffer is used for every Read, 1: after one small Read
+	data := []byte{0x80, 1, 2, 0, 0, 0, 'A', 'B', 0x80, 2, 3, 0, 0, 0, 0x01, 0xab, 0xff, 0x80, 1, 1, 0, 0, 0, 'C', 0x80, 2, 1, 0, 0, 0, 0x5a, 0x80, 3}
+	want := []byte("AB01abffC5a")
+	r := pfb.Decode(bytes.NewReader(data))
+	buf := make([]byte, size)
+	var got []byte
+	what := fmt.Sprintf("text AB, binary 01 ab ff, text C, binary 5a, end marker; caller buffer of %d bytes", size)
+	if first == 1 {
+		k, _ := r.Read(buf[:1])
+		got = append(got, buf[:k]...)
+		what += " after a Read of one byte"
+	}
+	for steps := 0; steps < 50; steps++ {
+		k, err := r.Read(buf)
+		c.Step()
+		if k > len(want)+8 {
+			v := mc.Fail("C14:giant-buffer:wrong-output", fmt.Sprintf("%s: one Read returned %d bytes, the whole output has %d", what, k, len(want)))
+			v.Render = what
+			return v
+		}
+		got = append(got, buf[:k]...)
+		if err != nil {
+			if err != io.EOF || !bytes.Equal(got, want) {
+				v := mc.Fail("C14:giant-buffer:wrong-output", fmt.Sprintf("%s: ended with %v, output %q, expected %q", what, err, got, want))
+				v.Render = what
+				return v
+			}
+			return mc.Pass("exact", true)
+		}
+	}
+	v := mc.Fail("C14:giant-buffer:no-end", what+": no end of stream after 50 reads")
+	v.Render = what
+	return v
+}
+
 // hugeBody: a segment may be as long as its 32-bit length field says.  The data
 // comes from a synthetic source (nothing of that size is kept in memory); the
 // decoder's output is counted and its tail compared.
@@ -672,6 +715,9 @@ func hugeBody(c *mc.Ctx, item int) mc.Verdict {
 func main() {
 	mc.Main(mc.Program{
 		Property: "C14",
+		// address space for the caller buffers of 4 and 8 GiB of the family
+		// caller-buffers-beyond-32-bits (their pages are never touched)
+		MemLimitKB: 24 << 20,
 		Assumptions: []string{
 			"source readers return (0, nil) only in the many-short-segments family (permitted by io.Reader; never twice in a row)",
 			"io.EOF is a clean end of stream, not an error, for the purposes of 'gives an error'",
@@ -710,6 +756,14 @@ func main() {
 					streamFamily("streams-of-4-segments", 4, 2, []int{0, 1, 3}),
 				}
 			}
+			fams = append(fams, mc.Family{
+				Name:     "caller-buffers-beyond-32-bits",
+				Items:    len(giantBufs) * 2,
+				Body:     giantBufferBody,
+				Budget:   budget,
+				Rule:     fmt.Sprintf("item = caller buffer of %v bytes (address space only) x {used from the start, after a Read of one byte}: a stream of two text and two binary segments of 1-3 bytes; the output must be exact, no Read may hand out what lies behind the segment; non-trivial = all", giantBufs),
+				CrashKey: func(int) string { return "C14:crash:giant-buffer" },
+			})
 			fams = append(fams, mc.Family{
 				Name:   "many-short-segments",
 				Items:  len(manyCounts) * len(manyPatterns) * len(manyBufs) * 3,
